@@ -99,6 +99,34 @@ func isZeroValue(v ssa.Value) bool {
 	return false
 }
 
+// isZeroStruct: v is the zero value of a struct type: a zero constant, or the load of a local composite literal
+// none of whose fields is stored
+func isZeroStruct(v ssa.Value) bool {
+	if isZeroValue(v) {
+		return true
+	}
+	u, ok := v.(*ssa.UnOp)
+	if !ok || u.Op != token.MUL {
+		return false
+	}
+	al, ok := u.X.(*ssa.Alloc)
+	if !ok || al.Referrers() == nil {
+		return false
+	}
+	for _, r := range *al.Referrers() {
+		switch y := r.(type) {
+		case *ssa.UnOp:
+			if y.Op != token.MUL {
+				return false
+			}
+		case *ssa.DebugRef:
+		default:
+			return false
+		}
+	}
+	return true
+}
+
 // onlyLoads: every use of the address v (possibly through nested field / index addresses) is a load
 func onlyLoads(v ssa.Value, depth int) bool {
 	refs := v.Referrers()
@@ -374,7 +402,24 @@ func (a *fxAnalysis) analyse(fn *ssa.Function) *fxSummary {
 						s.unbalanced |= bit
 						s.unpairedNonzero |= bit
 					}
+				case *ssa.UnOp:
+					// x := *p  (whole-struct load): reads every field
+					if x.Op == token.MUL && a.isTargetPtr(x.X.Type()) {
+						s.mayRead |= a.all
+						ri |= a.all &^ da
+					}
 				case *ssa.Store:
+					if a.isTargetPtr(x.Addr.Type()) {
+						// *p = v  (whole-struct store): assigns every field
+						s.mayWrite |= a.all
+						s.unbalanced |= a.all
+						if !isZeroStruct(x.Val) {
+							s.nonzeroStore |= a.all
+							s.unpairedNonzero |= a.all
+						}
+						da |= a.all
+						continue
+					}
 					f, ok := a.fieldOf(x.Addr)
 					if !ok {
 						continue
